@@ -354,6 +354,9 @@ def c01_pass():
                     unwindset={"vh_bytes": 2 * max(npre, nt * nc, nsu + 1) + 2, "readStates": max(ns, nt * nc, npre) + 2, "ll_qsort": ml + 2, "vh_readstates": max(ns, nt * nc, ml) + 2,
                                "lid:ll_malloc_split": 6, "lid:ll_calloc_split": 6}, cc_defs=["LL_MEM_CASES=" + ",".join(map(str, sizes))],
                     tiers=("quick", "thorough") if ns <= 2 else ("thorough",), timeout=None if ns <= 2 else 1700))
+    for bm in (130, 128, 3):
+        qs.append(Q(f"readstates_cap_m{bm}", "passload.cpp", "vh_readstates_cap", {"BIGMAP": bm, "VH_STATES_CAP": None}, unwind=8, unwindset={"vh_readstates_cap": bm + 3, "vh_bytes": 6, "readStates": 4,
+                    "lid:ll_malloc_split": 6, "lid:ll_calloc_split": 6}, cc_defs=["LL_MEM_CASES=0,2,16", "LL_qsort=vh_qsort_rec"]))
     PSTUBS = ["_ZN9graphite24Pass10readRangesEPKhmRNS_5ErrorE", "_ZN9graphite24Pass9readRulesEPKhmS2_PKtS4_S2_S4_S2_RNS_4FaceENS_8passtypeERNS_5ErrorE",
               "_ZN9graphite24Pass10readStatesEPKhS2_S2_RNS_4FaceERNS_5ErrorE", "_ZN9graphite22vm7Machine4CodeC2EbPKhS4_htRKNS_4SilfERKNS_4FaceENS_8passtypeEPPh"]
     for L, reach in ((40, 0), (44, 0), (52, 0), (64, 0), (80, 1), (96, 1)):
@@ -557,6 +560,7 @@ def frozen_queries(pid):
     for n in (1, 2):
         base.append(Q(f"test_constraint_n{n}", "fsm.cpp", "vh_test_constraint", {"NS": n, "WSTART": 0}, unwind=8, unwindset={"accumulate_rules": 5, "runFSM": n + 3, "reset": 3, "make_pass": 8, "testConstraint": 4, "vh_test_constraint": 6},
                       tiers=("quick", "thorough") if n == 1 else ("thorough",), timeout=None if n == 1 else 1700))
+    base.append(Q("find_fref", "featquery.cpp", "vh_find_fref", {"NFEAT": 3}, unwind=8, unwindset={"findFeatureRef": 5, "vh_find_fref": 5}))
     for q in base:
         q.frozen = True; q.defines = dict(q.defines); q.defines["VH_FROZEN"] = None; q.name = "frozen_" + q.name
         q.unwindset = dict(q.unwindset); q.unwindset["ll_frozen_check"] = 30
@@ -648,6 +652,9 @@ def c10():
         qs.append(Q(f"cmap_paths12_g{ng}_r{rg.replace(',', '_').replace('0x', '')}", "cmap_paths.cpp", "vh_cmap_paths12", {"NGRP": ng, "GRANGES": rg}, unwind=8, unwindset=dict(US12, vh_get_table=62 + 12 * ng, vh_bytes=62 + 12 * ng, vh_cmap_paths12=62 + 12 * ng),
                     cbmc_flags=["--sat-solver", "cadical"], est_gb=14, timeout=1700, tiers=("thorough",), cc_defs=[f"LL_MEM_CASES=0,{20 + 24 + 16 + 12 * ng},512,2048,34816"],
                     note="whole-object product for format 12: out of memory at 14 GB (0x1100 block pointers); the step lemma cmap12_step_grp* decides the clause inductively"))
+    qs.append(Q("lazy_boxes", "lazy.cpp", "vh_lazy_boxes", {"NG": 3, "VH_LAZY_BOXES": None}, unwind=8, unwindset={"lid:ll_malloc_split": 12, "lid:ll_calloc_split": 12},
+                stubs=["_ZNK9graphite210GlyphCache6Loader10read_glyphEtRNS_9GlyphFaceEPi", "_ZNK9graphite210GlyphCache6Loader8read_boxEtPNS_8GlyphBoxERKNS_9GlyphFaceE"],
+                unit_flags={"GlyphCache": ["-fno-inline"]}, cc_defs=["LL_MEM_CASES=0,36,68,100,132,40,72,104,136"]))
     qs.append(Q("cmap_paths_seg2_symbolic", "cmap_paths.cpp", "vh_cmap_paths", {"NSEG": 2}, unwind=8, unwindset=US, tiers=("thorough",), timeout=1700,
                 cbmc_flags=["--sat-solver", "cadical"], cc_defs=["LL_MEM_CASES=0,44,52,176,512,2048,34816"]))
     return qs
